@@ -10,6 +10,7 @@ package main
 // reference merge written from the statement, compared with the decoded record.
 
 import (
+	"bytes"
 	"context"
 	"encoding/json"
 	"fmt"
@@ -273,6 +274,7 @@ type c07Obs struct {
 	OwnKeys  [][]string
 	Panic    string
 	Anc      []c07Obs // one probe record through every ancestor of the logging logger, issued AFTER its call
+	Late     [][]byte // chains of two and more: the root is given one more attribute ("zzlate") after all that, then the logging logger issues one more record
 }
 
 const c07TagW, c07MinW = 3, 36
@@ -450,6 +452,19 @@ func (c C07Case) emit1() c07Obs {
 		}
 		events = nil
 		o.Anc = append(o.Anc, ao)
+	}
+	// what a logger inherits is looked up when the record is made: an attribute the root is given NOW shows in the next
+	// record of its descendant (with the inherit flag; never without)
+	if len(ents) >= 2 {
+		ents[0].Set("zzlate", 7)
+		events = nil
+		e.InfoContext(ctx, "late probe")
+		for _, ev := range events {
+			if ev.Kind == "write" {
+				o.Late = append(o.Late, ev.Payload)
+			}
+		}
+		events = nil
 	}
 	return o
 }
@@ -1068,6 +1083,17 @@ func c07One(r *Run, c C07Case, toCoq bool, runeSet map[rune]bool) {
 				break
 			}
 			r.Dist["ancestor_probes"]++
+		}
+		if len(c.Chain) >= 2 {
+			has := len(o.Late) == 1 && bytes.Contains(o.Late[0], []byte("zzlate"))
+			if len(o.Late) != 1 || has != c.Inherit {
+				obs := ""
+				if len(o.Late) > 0 {
+					obs = strconv.Quote(string(o.Late[0]))
+				}
+				r.Fail("C07/ancestor-changed-later", fmt.Sprintf("the root logger was given the attribute zzlate after its descendant had logged; the descendant's next record (inherit flag %v): %d record(s), carries zzlate: %v", c.Inherit, len(o.Late), has), c07Replay{c, obs, "late ancestor attribute"})
+			}
+			r.Dist["late_ancestor_probes"]++
 		}
 	}
 	if key != "" {
